@@ -190,8 +190,20 @@ JudgeC11Exists(g) ==
 Loosen(g, v, tag) ==
   IF v = {} \/ ~(\E i \in 1..Len(g.runs) : GNondet(g.runs[i])) THEN v
   ELSE IF \A cl \in v : cl \in {"C10.wrong-items", "C09.not-compositional", "C09.head-independence", "C10.consecutive-filters"}
-       THEN v             \* the laws themselves already tried the multiset comparison
+       THEN v             \* these laws already tried the multiset comparison themselves
        ELSE {"bag." \o tag}
+
+(* C11 inside filters: runs[1] = P ? (p && q), runs[2] = P ? (q && p),      *)
+(* runs[3] = P ? (p || q), runs[4] = P ? (q || p), runs[5] = P ? (!(!(p))),  *)
+(* runs[6] = P ? (p): commutativity in value and double negation show as    *)
+(* equal item sequences (conditions free of non-suppressible errors).       *)
+JudgeC11Filter(g) ==
+  LET q(i) == g.runs[i].q
+      same(i, j) == q(i).err.cls = q(j).err.cls /\ SeqEq(q(i).items, q(j).items)
+  IN IF \E i \in 1..Len(g.runs) : Broken(g.runs[i]) \/ Hard(g.runs[i].q.err.cls) THEN {}
+     ELSE (IF same(1, 2) THEN {} ELSE {"C11.and-commutes"})
+          \cup (IF same(3, 4) THEN {} ELSE {"C11.or-commutes"})
+          \cup (IF same(5, 6) THEN {} ELSE {"C11.table.notnot"})
 
 JudgeGroup(g) ==
   CASE g.kind = "C10"      -> Loosen(g, JudgeC10(g), "C10")
@@ -200,4 +212,5 @@ JudgeGroup(g) ==
     [] g.kind = "C09head"  -> Loosen(g, JudgeC09Head(g), "C09")
     [] g.kind = "C11"      -> JudgeC11(g)
     [] g.kind = "C11exists" -> JudgeC11Exists(g)
+    [] g.kind = "C11filter" -> Loosen(g, JudgeC11Filter(g), "C11")
 =============================================================================
